@@ -161,12 +161,21 @@ class NameStream(Stream):
 
 TRUSTED = [
     "Coq 8.16.1 kernel + vm_compute",
-    "hand-written models Wiring.v / Names.v tied to /repo by this correspondence run (sampled)",
+    "hand-written models Wiring.v / Names.v tied to /repo (a) for the name tables by the translation obligation: "
+    "harness/translate_names.py (trusted, fail-closed) reads Pin (must remain a frozen dataclass over (basename, mode_name) with no "
+    "hand-written equality), Pin.name, Model.update_pins and Model.pin_mapping from the current source and "
+    "coq/templates/NamesSrcProof.v proves them equal to Names.pin_name / update_pins / update_pins o rename_pins for all pin lists "
+    "and renamings; (b) by this correspondence run (sampled)",
     "harness: history generator with deliberately invalid calls, observation of the public tables after every call",
 ]
 
 if __name__ == "__main__":
+    import translate_names
+    from common import source_obligation
     main("C16", [InvalidStream(), ByNameStream(), NameStream()],
+         source_obligations=[source_obligation(
+             "NamesSrc_C16", translate_names.translate, "NamesSrcProof.v",
+             ["pin_name_src_is_pin_name", "update_pins_src_is_update_pins", "pin_mapping_src_is_model"])],
          level_text="props/C16.v: in every state a connected pin is refused for any other partner in either argument "
                     "position with the state untouched; repeating a connect in either orientation is a no-op; every "
                     "validation failure of connect/add leaves the state untouched (partial: see level_note); colliding pin "
